@@ -278,9 +278,21 @@ class Spelling(c12.LockEngine):
       sg['defaults'] = [['i', 0]] * len(sg['args'])
       regs.append({'sel': sel, 'sig': sg, 'allow': [], 'deny': []})
     ops = []
-    for _ in range(rng.randint(2, 10)):
+    # sometimes one configurable is registered only half way: a spelling that was unique (or the complete name of an
+    # entry) may then mean something else, and every API has to follow the CURRENT registry
+    late = regs.pop() if len(regs) >= 2 and rng.random() < 0.5 else None
+    n_ops = rng.randint(2, 10)
+    late_at = rng.randint(1, n_ops - 1) if late else -1
+    all_regs = regs + ([late] if late else [])
+    for i_op in range(n_ops):
+      if i_op == late_at:
+        ops.append(['register', late])
+        regs = all_regs
       c = rng.choice(regs)
       sp = ginm.spellings(c['sel'], regs)
+      if late and i_op > late_at and rng.random() < 0.4:
+        # a spelling that was unambiguous BEFORE the late registration (now possibly ambiguous or re-pointed)
+        sp = ginm.spellings(c['sel'], all_regs[:-1]) if c is not late else sp
       p = rng.choice(c['sig']['args'])
       sc = rng.choice(['', '', 's1', 's1/s2'])
       pre = sc + '/' if sc else ''
@@ -309,13 +321,19 @@ class Spelling(c12.LockEngine):
         ops.append(['finalize'])
         ops.append(['clear', False])
     ops += [['finalize'], ['locked'], ['dumpconfig'], ['dumpcalls']]
-    return {'regs': regs, 'ops': ops}
+    return {'regs': all_regs[:-1] if late else regs, 'ops': ops}
 
   def impl(self, case):
     r = super().impl(case)
     # independent check: after every successful bind, the value is visible through every spelling
     m = ginm.Machine()
-    regs = case['regs']
+    regs = list(case['regs'])
+    m.case_regs = regs
+    for c in regs:
+      try:
+        m.register(c)
+      except Exception:  # pylint: disable=broad-except
+        pass
     fails = list(r['fails'])
     spell = {c['sel']: ginm.spellings(c['sel'], regs) for c in regs}
     nontrivial = False
@@ -324,6 +342,9 @@ class Spelling(c12.LockEngine):
         m.exec_op(op)
       except Exception:  # pylint: disable=broad-except
         continue
+      if op[0] == 'register':
+        regs = regs + [op[1]]
+        spell = {c['sel']: ginm.spellings(c['sel'], regs) for c in regs}
       if op[0] in ('bind', 'pbind', 'bindt') and not m.gin.config_is_locked():
         if op[0] == 'bindt':
           sc, sel, arg = op[1], op[2], op[3]
